@@ -123,6 +123,15 @@ func (e *Env) lookup(name string) (Val, bool) {
 			if c, ok := obj.(*types.Const); ok {
 				return constVal(c.Val(), c.Type()), true
 			}
+			// a package-level variable: its current value (the same load the code performs)
+			if _, isVar := obj.(*types.Var); isVar && e.x != nil && e.st != nil {
+				if sp := e.x.eng.prog.Package(e.pkg); sp != nil {
+					if g, ok := sp.Members[name].(*ssa.Global); ok {
+						gp := Ptr{Ref: strconv.Itoa(e.x.eng.globalID(g)), Elem: g.Type().(*types.Pointer).Elem()}
+						return e.x.loadPtr(e.st, gp, nil, false), true
+					}
+				}
+			}
 		}
 	}
 	return nil, false
@@ -703,6 +712,11 @@ func (e *Env) evalCall(n *ast.CallExpr) Val {
 		}
 		name, _ := strconv.Unquote(lit.Value)
 		id := e.x.eng.typeIDByName(name)
+		if strings.HasPrefix(name, "*") || strings.HasPrefix(name, "map[") || strings.HasPrefix(name, "func(") {
+			// a true ground fact of the model: pointers, maps and functions are boxed by identity, so
+			// == on two interface values of this dynamic type is equality of representation
+			e.x.assume("(identityboxed " + strconv.Itoa(id) + ")")
+		}
 		return Bool{sEq(iv.Tag, strconv.Itoa(id))}
 	case "intval":
 		// integer payload of an interface value (meaningful when its dynamic type is an integer type)
